@@ -20,7 +20,11 @@ func (ex *Exec) bigW() int {
 
 func (ex *Exec) bigGet(st *State, p Value) *Term {
 	w := ex.bigW()
-	v := ex.load(st, p)
+	ex.panicIf(st, nilCond(p), "nil *big.Int dereference", ex.curInstr)
+	if st.dead() {
+		return BV(w, 0)
+	}
+	v := ex.load(st, dropNil(p))
 	agg, ok := v.(*Agg)
 	if !ok {
 		panic(unsupported("big.Int: unexpected object shape"))
@@ -38,6 +42,14 @@ func (ex *Exec) bigGet(st *State, p Value) *Term {
 
 func (ex *Exec) bigSet(st *State, p Value, t *Term) {
 	w := ex.bigW()
+	if st.dead() {
+		return
+	}
+	ex.panicIf(st, nilCond(p), "nil *big.Int dereference", ex.curInstr)
+	if st.dead() {
+		return
+	}
+	p = dropNil(p)
 	if t.W != w {
 		panic("bigSet width")
 	}
